@@ -95,7 +95,7 @@ impl Db {
     }
 }
 
-#[derive(Debug, Clone, PartialEq)]
+#[derive(Debug, Clone, PartialEq, serde::Serialize, serde::Deserialize)]
 pub struct TableObs {
     /// `SELECT *` as a sorted multiset, or the error text
     pub rows: Result<Vec<Row>, String>,
